@@ -89,6 +89,21 @@ def exact_case(task):
                 part.violation(what, {"forest": f.describe(), "log_pdf": lp, "expected": -log_count_ref,
                                       "n_orders_reported": math.exp(-lp), "n_orders": math.exp(log_count_ref)})
             part.sample({"forest": f.describe(), "n_orders": round(math.exp(log_count_ref)), "log_pdf": lp}, limit=2)
+            # the same clones with other outlier sets, scored back to back in this process (a density that is memoised
+            # or otherwise carried over between trees must not leak from one outlier set to another)
+            if n >= 2 and f.K >= 1:
+                for drop in ([], list(f.outliers)[:1], list(f.outliers)):
+                    g2 = gen.AForest(f.blocks, f.parent, [o for o in f.outliers if o not in drop])
+                    t2, _ = gen.build_tree(g2, data)
+                    lp2 = float(RootPermutationDistribution.log_pdf(t2))
+                    ref2 = refmodel.count_orders(g2)
+                    part.count("outlier_variant_evaluations")
+                    if not abs(-lp2 - ref2) <= 1e-9 * (1 + abs(ref2)):
+                        part.violation("log_pdf is not minus log of the number of compatible orders for the same clones "
+                                       "with another outlier set scored in the same process",
+                                       {"forest": g2.describe(), "scored_after": f.describe(), "log_pdf": lp2,
+                                        "expected": -ref2})
+                        break
         except ChoiceModelError as e:
             part.inconc("choice model: %s" % e)
         except Exception as e:
